@@ -45,6 +45,18 @@ def notations(rng, t, n_random):
     rng.shuffle(fixed)
     for off in fixed[:n_random]:
         out.append((B.fmt(t, off, sep(), frac=frac()), off))
+    # further ISO-8601 spellings the interpreter's datetime.fromisoformat (Python >= 3.11) understands: basic format, offsets without colon
+    # or with hours only, a decimal comma
+    off = rng.choice([0, 3600, 7200, -18000, 19800])
+    style = rng.randrange(4)
+    if style == 0:
+        out.append((B.fmt(t, off, basic=True, offset_style=rng.choice(["colon", "nocolon", "hours"])), off))
+    elif style == 1:
+        out.append((B.fmt(t, off, sep(), offset_style=rng.choice(["nocolon", "hours"])), off))
+    elif style == 2:
+        out.append((B.fmt(t, off, sep(), frac=",000"), off))
+    else:
+        out.append((B.fmt(t, off, basic=True, z=off == 0), off))
     return out
 
 
